@@ -854,6 +854,37 @@ func init() {
 				}
 			}
 		}
+		c.Phase("multisig-separators-and-mixed-hash-types") // under FORKID: every separator position and kind (also behind the check) x signatures of the enabled and of the original type in one check
+		n = 0
+		for N := 1; N <= 3; N++ {
+			for M := 1; M <= 2 && M <= N; M++ {
+				for mask := 0; mask < 1<<M; mask++ { // bit i set: slot i carries a signature WITHOUT the FORKID bit (refused under FORKID, but only after the ones before it were judged)
+					for sepPos := 0; sepPos <= N+4; sepPos++ {
+						for _, sk := range sepKinds {
+							for fi, base := range []uint32{uint32(scriptflag.EnableSighashForkID | scriptflag.UTXOAfterGenesis), uint32(scriptflag.EnableSighashForkID),
+								uint32(scriptflag.EnableSighashForkID | scriptflag.UTXOAfterGenesis | scriptflag.VerifyNullFail)} {
+								n++
+								N, M, mask, sepPos, sk, base, fi := N, M, mask, sepPos, sk, base, fi
+								run(n, func(r *prng.R) *c06Spec {
+									sp := &c06Spec{Kind: "multisig", M: M, N: N, Not: (sepPos+fi)%2 == 1, SepPos: sepPos, SepKind: sk, Flags: base}
+									for i := 0; i < N; i++ {
+										sp.KeyEnc = append(sp.KeyEnc, "c")
+									}
+									for i := 0; i < M; i++ {
+										cl := "correct"
+										if mask&(1<<i) != 0 {
+											cl = "forkid-bit-mismatch"
+										}
+										sp.Slots = append(sp.Slots, slot(r, i+(N-M)*(i%2), cl, true))
+									}
+									return sp
+								}, "multisig-separators-and-mixed-hash-types")
+							}
+						}
+					}
+				}
+			}
+		}
 		c.Phase("multisig-large")
 		N2 := uint64(1500)
 		if c.Thorough {
